@@ -42,7 +42,7 @@ ID = "C19"
 GEN = []
 CORR_NAME = "writer-tokens+reader-result"
 RULE = ("problems of the ANML fragment: the classical/numeric generator of harness/upp.py (quantifiers, conditional / universal / "
-        "increase / decrease effects, bounded int and real types incl. negative and fractional bounds, defaults, undefined values, "
+        "increase / decrease effects, bounded int and real types incl. negative and fractional bounds, defaults, "
         "state invariants) and a temporal generator (durative actions with fixed / open / closed duration bounds, conditions over "
         "point / open / closed intervals with delays, effects at delayed timings, timed effects and goals), both renamed with "
         "adversarial identifiers (keywords, keyword prefixes, leading digits, symbols, clashes after mangling); plus every bundled "
@@ -54,6 +54,8 @@ ASSUMPTIONS = [
     "on both sides and by the harness before the model sees an expression); the reader's final simplify() is likewise applied by the "
     "harness to the model's raw result before comparing",
     "the expansion of defaults into ground initial values (Problem.initial_values) is an input of the model",
+    "every ground fluent has an initial value: writer and reader simplify every expression, and simplification is meaning-preserving "
+    "on total states only (x or true becomes true and no longer reads an undefined x; C11 is stated for total interpretations)",
     "the writer's renaming (names_mapping) is observed on the real run and handed to the model as a table (C38 proves it valid and injective); "
     "the model checks both on the table it receives",
     "timed effects at global start + 0 are outside the fragment (the writer prints them like initial values)",
@@ -652,7 +654,7 @@ class Gen19:
 
     def base(self, temporal):
         r = self.rng
-        g = upp.ProblemGen(r, undefined=r.random() < 0.5, invariants=True, metrics=False, quantifiers=True, big=r.random() < 0.15)
+        g = upp.ProblemGen(r, undefined=False, invariants=True, metrics=False, quantifiers=True, big=r.random() < 0.15)
         g.eg.empty_type = False
         U = lambda n: ["user", n]
         # two fluents no effect ever writes: printed as `constant`
@@ -858,7 +860,7 @@ def prune(rng, ps):
 
 
 COUNTS = {"quick": {"examples": 5, "mini": 24, "medium": 3, "w": 250},
-          "thorough": {"examples": 10 ** 6, "mini": 110, "medium": 16, "w": 4000}}
+          "thorough": {"examples": 10 ** 6, "mini": 70, "medium": 8, "w": 3000}}
 
 
 def cases(rng, tier):
